@@ -14,9 +14,11 @@ import zipfile
 import sourmash
 from sourmash import MinHash, SourmashSignature, sourmash_args
 from sourmash.exceptions import IndexNotLoaded
-from sourmash.index import StandaloneManifestIndex
+from sourmash.index import LazyLinearIndex, LinearIndex, MultiIndex, StandaloneManifestIndex, ZipFileLinearIndex
 from sourmash.index.sqlite_index import convert_hash_from, convert_hash_to
 from sourmash.lca.lca_db import LCA_Database
+from sourmash._lowlevel import lib
+from sourmash.utils import decode_str
 from sourmash.logging import set_quiet
 from sourmash.manifest import CollectionManifest
 from sourmash.save_load import SaveSignaturesToLocation, _loader_functions
@@ -92,6 +94,10 @@ class State:
         self.n = 0
         self.slots = {}
         self.cwd = None
+        self.route = 0            # per-case counter the model does not see: alternates equivalent routes
+        self.history = []         # (description, index object, cwd, first observation) of the current collection
+        self.kept = []            # (signature object, first rendering): every signature any call returned
+        self.sig_shows = {}       # rendering of the input signatures when they were made
 
     def reset(self):
         self.cleanup()
@@ -100,6 +106,18 @@ class State:
         self.path = None
         self.slots = {}
         self.cwd = None
+        self.route = 0
+        self.history = []
+        self.kept = []
+        self.sig_shows = {}
+
+    def next_route(self, n):
+        self.route += 1
+        return self.route % n
+
+    def new_collection(self):
+        self.history = []
+        self.kept = []
 
     def workspace(self):
         """the command-line workspace of this case: <dir>/a/b<slot>/..., <dir>/mf/, <dir>/out/, <dir>/else/"""
@@ -132,14 +150,46 @@ def parse_sessions(s):
 
 
 def run_sessions(S, path, sessions):
+    """the same saves through alternating spellings: context manager / explicit open+close / add_many;
+    for an uncompressed .sig also LinearIndex.save and save_signatures_to_json"""
     refused = []
     for si, sess in enumerate(sessions):
-        with SaveSignaturesToLocation(path) as save:
-            for j, i in enumerate(sess):
-                try:
-                    save.add(S.sigs[i])
-                except ValueError as e:
-                    refused.append(f"{si}.{j}:{exc_name(e)}")
+        route = S.next_route(4)
+        if path.endswith(".sig") and len(sessions) == 1 and route >= 2:
+            if route == 2:
+                LinearIndex([S.sigs[i] for i in sess], path).save(path)
+            else:
+                with open(path, "wt") as fp:
+                    sourmash.save_signatures_to_json([S.sigs[i] for i in sess], fp)
+            continue
+        if route == 1:
+            save = SaveSignaturesToLocation(path)
+            save.open()
+        else:
+            save = SaveSignaturesToLocation(path).__enter__()
+        n_ok = 0
+        try:
+            if route == 3 and not path.endswith(".sqldb"):
+                save.add_many([S.sigs[i] for i in sess])
+                n_ok = len(sess)
+            else:
+                for j, i in enumerate(sess):
+                    try:
+                        save.add(S.sigs[i])
+                        n_ok += 1
+                    except ValueError as e:
+                        refused.append(f"{si}.{j}:{exc_name(e)}")
+        finally:
+            if route == 1:
+                save.close()
+            else:
+                save.__exit__(None, None, None)
+        # (SaveSignatures_SqliteIndex counts an add before the insert that may refuse it)
+        if (len(save) != n_ok and not path.endswith(".sqldb")) or path.rstrip("/") not in repr(save).replace("//", "/"):
+            return f"VIEW:saver-count-or-repr len={len(save)} adds={n_ok} {save!r}"
+    for i, shown in S.sig_shows.items():
+        if show_sig(S.sigs[i]) != shown:
+            return f"HIST:input-signature-{i}-changed-by-saving"
     return "ok refused=" + ",".join(refused)
 
 
@@ -162,8 +212,94 @@ def in_dir(d):
 
 
 def generic(S):
+    """the generic loader, through alternating entry points (and, now and then, the class's own loader)"""
+    from sourmash import save_load
+    from sourmash.index.sqlite_index import SqliteIndex
+    route = S.next_route(6)
     with in_dir(S.cwd):
+        if route == 1:
+            return sourmash_args.load_file_as_index(S.path)
+        if route == 2:
+            return save_load._load_database(S.path, False)
+        if route == 3:
+            return save_load.load_file_as_index(S.path, yield_all_files=False)
+        if route == 4:
+            if S.kind == "zip":
+                return ZipFileLinearIndex.load(S.path)
+            if S.kind == "sqldb":
+                return SqliteIndex.load(S.path)
+            if S.kind in ("sigfile", "dir", "split"):
+                return MultiIndex.load_from_path(S.path)
         return sourmash.load_file_as_index(S.path)
+
+
+def check_views(S, idx, sigs):
+    """everything that can be read about the collection through two routes must agree -> None or a complaint"""
+    m = idx.manifest
+    shown = sorted(show_sig(x) for x in sigs)
+    for ss in sigs:
+        if ss.md5sum() != decode_str(ss.minhash._methodcall(lib.kmerminhash_md5sum)):
+            return "md5-of-signature-vs-sketch"
+        if m is not None and ss not in m:
+            return "returned-signature-not-in-manifest"
+    try:
+        swl = list(idx.signatures_with_location())
+    except NotImplementedError:
+        swl = None
+    if swl is not None:
+        if sorted(show_sig(x) for x, _ in swl) != shown:
+            return "signatures_with_location-vs-signatures"
+        for _, loc in swl:
+            if not loc or not os.path.exists(loc):
+                return f"location-does-not-exist:{loc}"
+    if not idx.location or not os.path.exists(idx.location):
+        return f"index-location:{idx.location}"
+    if sorted(show_sig(x) for x in LazyLinearIndex(idx).signatures()) != shown:
+        return "LazyLinearIndex-vs-signatures"
+    if isinstance(idx, ZipFileLinearIndex) and bool(idx) != bool(sigs):
+        return "zip-bool-vs-signatures"
+    if m is not None:
+        rows = list(m.rows)
+        have = {}
+        for r in rows:
+            key = (r["md5"], r["name"], r["filename"] or "", r["ksize"], r["moltype"], r["num"], r["scaled"], r["n_hashes"],
+                   bool(r["with_abundance"]))
+            have[key] = have.get(key, 0) + 1
+        for ss in sigs:
+            mh = ss.minhash
+            key = (ss.md5sum(), ss.name, ss.filename or "", mh.ksize, mh.moltype, mh.num, mh.scaled, len(mh),
+                   bool(mh.track_abundance))
+            if not have.get(key) and not (S.kind == "mf" and not isinstance(m, CollectionManifest)):   # C10.5
+                return "no-manifest-row-with-the-attributes-of-a-returned-signature"
+        if len(idx) != len(rows) and S.kind != "lcasql":
+            return "len-vs-manifest-rows"
+        if isinstance(m, CollectionManifest):
+            m.write_to_csv(io.StringIO(), write_header=True)          # a read-only call on the index's own manifest ...
+            if sorted(show_sig(x) for x in idx.signatures()) != shown:    # ... must not disturb the index
+                return "signatures-after-manifest.write_to_csv"
+            if not (CollectionManifest.load_from_manifest(m) == m) or len(m + m) != 2 * len(m) \
+                    or not (m.filter_rows(lambda r: True) == m):
+                return "manifest-algebra"
+            fp = io.StringIO()
+            CollectionManifest(dict(r) for r in m.rows).write_to_csv(fp, write_header=True)
+            back = CollectionManifest.load_from_csv(io.StringIO(fp.getvalue()))
+            if len(back) != len(m) or any(str(a[k2] if a[k2] is not None else "") != str(b[k2] if b[k2] is not None else "")
+                                         for a, b in zip(back.rows, m.rows) for k2 in CollectionManifest.required_keys):
+                return "manifest-csv-roundtrip"
+    return None
+
+
+def recheck_history(S):
+    """every index object and every signature an earlier call returned must still say what it said"""
+    for desc, idx, cwd, first in S.history:
+        with in_dir(cwd):
+            now = sorted(show_sig(x) for x in idx.signatures())
+        if now != first:
+            return f"HIST:{desc}-answers-differently-later"
+    for ss, shown in S.kept:
+        if show_sig(ss) != shown:
+            return "HIST:a-returned-signature-changed-later"
+    return None
 
 
 def cli(argv, cwd):
@@ -221,10 +357,18 @@ def load_how(S, how):
         idx = generic(S)
         with in_dir(S.cwd):
             sigs = list(idx.signatures())
+            again = list(idx.signatures())                       # read-only entry point, twice
             # the other generic entry point must agree
             other = list(sourmash_args.load_file_as_signatures(S.path))
-        if sorted(show_sig(x) for x in other) != sorted(show_sig(x) for x in sigs):
-            return None, "MISMATCH load_file_as_signatures"
+            if sorted(show_sig(x) for x in other) != sorted(show_sig(x) for x in sigs):
+                return None, "VIEW:load_file_as_signatures-vs-index"
+            if [show_sig(x) for x in again] != [show_sig(x) for x in sigs]:
+                return None, "HIST:second-iteration-differs"
+            complaint = check_views(S, idx, sigs)
+        if complaint:
+            return None, "VIEW:" + complaint
+        S.history.append((f"{type(idx).__name__}", idx, S.cwd, sorted(show_sig(x) for x in sigs)))
+        S.kept += [(x, show_sig(x)) for x in sigs]
         return sigs, None
     if how == "standalone":
         out = build_standalone(S)
@@ -364,6 +508,7 @@ def main():
                 else:
                     mh.add_many([h for h, _ in hs])
                 S.sigs[i] = SourmashSignature(mh, name=nm(name), filename=fnm(filename))
+                S.sig_shows[i] = show_sig(S.sigs[i])
                 res = f"ok md5={int(S.sigs[i].md5sum(), 16)} n={len(mh)}"
             elif op in ("zip", "dir", "sqldb", "sigfile", "sbt", "lca") and any(
                     i not in S.sigs for sess in parse_sessions(a[-1]) for i in sess):
@@ -377,6 +522,7 @@ def main():
                     path = d + {"zip": "/c.zip", "dir": "/cdir/", "sqldb": "/c.sqldb"}[op]
                     sess = a[0]
                 S.kind, S.path = op, path
+                S.new_collection()
                 res = run_sessions(S, path, parse_sessions(sess))
                 if op == "dir":
                     S.path = path.rstrip("/")
@@ -385,6 +531,7 @@ def main():
             elif op == "sbt":
                 d = S.fresh()
                 S.kind, S.path = "sbt", d + "/c.sbt.zip"
+                S.new_collection()
                 t = create_sbt_index()
                 for i in parse_sessions(a[0])[0]:
                     t.insert(S.sigs[i])
@@ -394,6 +541,7 @@ def main():
                 ksize, mol, scaled, maxhash = [int(x) for x in a[:4]]
                 d = S.fresh()
                 S.kind, S.path = "lca", d + "/c.lca.json"
+                S.new_collection()
                 db = LCA_Database(ksize, scaled, MOLS[mol])
                 refused = []
                 for j, i in enumerate(parse_sessions(a[4])[0]):
@@ -401,8 +549,200 @@ def main():
                         db.insert(S.sigs[i])
                     except ValueError as e:
                         refused.append(f"0.{j}:{exc_name(e)}")
+                    if S.next_route(2):
+                        _ = len(db), list(db.signatures())       # a reader between two writes
                 db.save(S.path)
                 res = "ok refused=" + ",".join(refused)
+                # the database in memory (read between the inserts) and the one read back must agree
+                back = LCA_Database.load(S.path)
+                if sorted(show_sig(x) for x in db.signatures()) != sorted(show_sig(x) for x in back.signatures()) \
+                        or len(db) != len(back):
+                    res = "VIEW:lca-in-memory-vs-reloaded"
+            elif op in ("noout", "stdio", "sbtjson", "lcasql") and any(
+                    i not in S.sigs for i in parse_sessions(a[-1])[0]):
+                res = "bad-op"
+            elif op == "noout":
+                ids = parse_sessions(a[0])[0]
+                save = SaveSignaturesToLocation(None)
+                before = set(os.listdir(os.getcwd()))
+                if S.next_route(2):
+                    with save:
+                        for i in ids:
+                            save.add(S.sigs[i])
+                else:
+                    save.open()
+                    save.add_many([S.sigs[i] for i in ids])
+                    save.close()
+                ok = type(save).__name__ == "SaveSignatures_NoOutput" and set(os.listdir(os.getcwd())) == before
+                res = f"ok n={len(save)}" if ok else "VIEW:no-output-saver"
+            elif op == "stdio":
+                ids = parse_sessions(a[0])[0]
+                buf = io.StringIO()
+                with contextlib.redirect_stdout(buf):
+                    with SaveSignaturesToLocation("-") as save:
+                        for i in ids:
+                            save.add(S.sigs[i])
+                text = buf.getvalue()
+                from_text = list(sourmash.load_signatures_from_json(text))
+                old_stdin = sys.stdin
+                try:
+                    sys.stdin = io.StringIO(text)
+                    from_stdin = list(sourmash.load_file_as_index("-").signatures())
+                finally:
+                    sys.stdin = old_stdin
+                if [show_sig(x) for x in from_text] != [show_sig(x) for x in from_stdin]:
+                    res = "VIEW:stdout-json-vs-stdin-loader"
+                else:
+                    res = "ok " + ";".join(show_sig(x) for x in from_stdin)
+            elif op == "sbtjson":
+                d = S.fresh()
+                S.kind, S.path = "sbtjson", d + "/c.sbt.json"
+                S.new_collection()
+                t = create_sbt_index()
+                for i in parse_sessions(a[0])[0]:
+                    t.insert(S.sigs[i])
+                t.save(S.path)
+                res = "ok refused="
+            elif op == "lcasql":
+                ksize, mol, scaled, maxhash = [int(x) for x in a[:4]]
+                d = S.fresh()
+                S.kind, S.path = None, d + "/c.lca.sqldb"
+                S.new_collection()
+                db = LCA_Database(ksize, scaled, MOLS[mol])
+                refused = []
+                for j, i in enumerate(parse_sessions(a[4])[0]):
+                    try:
+                        db.insert(S.sigs[i])
+                    except ValueError as e:
+                        refused.append(f"0.{j}:{exc_name(e)}")
+                db.save(S.path, format="sql")
+                S.kind = "lcasql"
+                res = "ok refused=" + ",".join(refused)
+            elif op == "derive":
+                j, i, how = int(a[0]), int(a[1]), a[2]
+                if i not in S.sigs:
+                    res = "bad-op"
+                else:
+                    src = S.sigs[i]
+                    route = S.next_route(3)
+                    if how == "down":
+                        mh = src.minhash.downsample(scaled=int(a[3]))
+                    elif how == "flat":
+                        mh = src.minhash.flatten()
+                    else:
+                        mh = src.minhash
+                    name = nm(int(a[3])) if how == "rename" else src.name
+                    filename = fnm(int(a[4])) if how == "rename" else src.filename
+                    if route == 0:
+                        new = SourmashSignature(mh, name=name, filename=filename)
+                    elif route == 1:
+                        new = src.to_mutable()
+                        new.minhash = mh
+                        if how == "rename":
+                            new.name = name
+                            new.filename = filename
+                        new = new.to_frozen()
+                    else:
+                        with src.to_frozen().update() as new:
+                            new.minhash = mh
+                            if how == "rename":
+                                new.name = name
+                                new.filename = filename
+                    S.sigs[j] = new
+                    S.sig_shows[j] = show_sig(new)
+                    if show_sig(src) != S.sig_shows[i]:
+                        res = "HIST:deriving-changed-the-source-signature"
+                    else:
+                        res = f"ok md5={int(new.md5sum(), 16)} n={len(new.minhash)}"
+            elif op == "load" and a[0] == "nomanifest":
+                if S.kind != "zip":
+                    res = "ok -"
+                else:
+                    idx = ZipFileLinearIndex.load(S.path, use_manifest=False)
+                    sigs = list(idx.signatures())
+                    swi = [x for x, _ in idx._signatures_with_internal()]
+                    if sorted(show_sig(x) for x in swi) != sorted(show_sig(x) for x in sigs) or len(idx) != len(sigs):
+                        res = "VIEW:manifest-less-zip-views"
+                    else:
+                        res = "ok~ " + ";".join(show_sig(x) for x in sigs)
+            elif op == "nested":
+                l1, l2, l3 = (parse_sessions(x)[0] for x in a[:3])
+                junk, force = a[3] == "1", a[4] == "1"
+                if any(i not in S.sigs for l in (l1, l2, l3) for i in l):
+                    res = "bad-op"
+                else:
+                    d = S.fresh()
+                    S.kind = None
+                    root = os.path.join(d, "n")
+                    os.makedirs(os.path.join(root, "sub", "deep"))
+                    for rel, ids in (("a.sig", l1), ("sub/b.sig.gz", l2), ("sub/deep/c.zip", l3)):
+                        with SaveSignaturesToLocation(os.path.join(root, rel)) as save:
+                            for i in ids:
+                                save.add(S.sigs[i])
+                    with open(os.path.join(root, "sub", "readme.txt"), "w") as f:
+                        f.write("not a signature\n")
+                    if junk:
+                        with open(os.path.join(root, "junk.sig"), "w") as f:
+                            f.write("this is not JSON")
+                    if force:
+                        idx = MultiIndex.load_from_directory(root, force=True)
+                    elif S.next_route(2):
+                        idx = sourmash.load_file_as_index(root)
+                    else:
+                        idx = MultiIndex.load_from_path(root)
+                    sigs = list(idx.signatures())
+                    locs = {r["internal_location"] for r in idx.manifest.rows}
+                    swl = list(idx.signatures_with_location())
+                    if not locs <= {"a.sig", "sub/b.sig.gz"} or any(not os.path.isfile(loc) for _, loc in swl) \
+                            or len(idx) != len(sigs):
+                        res = f"VIEW:directory-locations {sorted(locs)}"
+                    else:
+                        res = "ok~ " + ";".join(show_sig(x) for x in sigs)
+            elif op == "lateadd":
+                fmt, ids, extra = a[0], parse_sessions(a[1])[0], int(a[2])
+                if any(i not in S.sigs for i in ids + [extra]):
+                    res = "bad-op"
+                else:
+                    d = S.fresh()
+                    S.new_collection()
+                    S.kind = None
+                    path = os.path.join(d, {"zip": "c.zip", "sqldb": "c.sqldb", "sig": "c.sig", "dir": "cdir/"}[fmt])
+                    save = SaveSignaturesToLocation(path)
+                    save.open()
+                    for i in ids:
+                        save.add(S.sigs[i])            # a refusal (sqldb) propagates: `err ValueError`
+                    save.close()
+                    raised = 0
+                    try:
+                        save.add(S.sigs[extra])
+                    except Exception:
+                        raised = 1
+                    S.kind, S.path = {"sig": "sigfile"}.get(fmt, fmt), path.rstrip("/")
+                    res = f"ok raised={raised}"
+            elif op == "sqlapi":
+                from sourmash.index.sqlite_index import SqliteIndex
+                ids, extra = parse_sessions(a[0])[0], int(a[1])
+                if any(i not in S.sigs for i in ids + [extra]):
+                    res = "bad-op"
+                else:
+                    d = S.fresh()
+                    S.new_collection()
+                    S.kind, S.path = "sqldb", d + "/c.sqldb"
+                    res = run_sessions(S, S.path, [ids])
+                    idx = SqliteIndex.create(S.path, append=True)
+                    n0, before = len(idx), sorted(show_sig(x) for x in idx.signatures())
+                    raised = False
+                    try:
+                        idx.insert(S.sigs[extra])
+                    except ValueError:
+                        raised = True
+                    n1, after = len(idx), sorted(show_sig(x) for x in idx.signatures())
+                    idx.commit()
+                    idx.close()
+                    if n1 != n0 + (0 if raised else 1) or len(after) != n1 or (raised and after != before):
+                        res = f"VIEW:sqlite-len-after-insert {n0}->{n1} returned={len(after)} raised={raised}"
+                    elif res.startswith("ok refused="):
+                        res = res + ("," if res != "ok refused=" and raised else "") + ("1.0:ValueError" if raised else "")
             elif op == "mk":
                 k, fmt, sess = int(a[0]), a[1], parse_sessions(a[2])
                 if any(i not in S.sigs for x in sess for i in x):
@@ -420,6 +760,7 @@ def main():
                 res = "bad-op"
             elif op == "cat":
                 S.kind = None
+                S.new_collection()
                 outfmt, unique, fromfile = a[0], a[1] == "1", a[2] == "1"
                 ks = [int(x) for x in a[3].split(",")]
                 ws = S.workspace()
@@ -445,6 +786,7 @@ def main():
                     res = "ok refused="
             elif op == "split":
                 S.kind = None
+                S.new_collection()
                 ks = [int(x) for x in a[0].split(",")]
                 ws = S.workspace()
                 shutil.rmtree(os.path.join(ws, "out"), ignore_errors=True)
@@ -457,6 +799,7 @@ def main():
                     res = "ok refused="
             elif op == "collect":
                 S.kind = None
+                S.new_collection()
                 fmt, mode = a[0], a[1]
                 ks = [int(x) for x in a[2].split(",")]
                 ws = S.workspace()
@@ -531,6 +874,10 @@ def main():
                     res = "ok~ " + ";".join(show_member(n) for n in ns)
                 elif S.kind == "dir":
                     res = "ok~ " + ";".join(show_member(n) for n in os.listdir(S.path))
+                elif S.kind == "sbtjson":
+                    sub = os.path.join(os.path.dirname(S.path), ".sbt.c")
+                    res = "ok~ " + ";".join(show_member(n) for n in os.listdir(sub)
+                                            if not n.startswith("internal.") and not n.endswith(".csv"))
                 else:
                     res = "ok -"
             elif op == "manifest":
@@ -540,8 +887,11 @@ def main():
                     res = "ok none"
                 elif S.kind == "zip":
                     res = "ok " + ";".join(row_fields(r, show_member(r["internal_location"])) for r in m.rows)
-                elif S.kind == "sbt":
+                elif S.kind in ("sbt", "sbtjson"):
                     res = "ok~ " + ";".join(row_fields(r, "*") for r in m.rows)
+                elif S.kind == "lcasql":
+                    res = "ok~ " + ";".join(f"{un_nm(r['name'])}|{r['n_hashes']}|{r['scaled']}|{r['ksize']}|{MOLS.index(r['moltype'])}"
+                                            for r in m.rows)
                 elif S.kind == "dir":
                     res = "ok~ " + ";".join(row_fields(r, show_member(r["internal_location"])) for r in m.rows)
                 elif S.kind == "split":
@@ -561,13 +911,14 @@ def main():
                     res = "ok -"
             elif op == "locs":
                 idx = generic(S)
-                if S.kind == "sbt" and idx.manifest is not None:
+                if S.kind in ("sbt", "sbtjson") and idx.manifest is not None:
                     locs = [r["internal_location"] for r in idx.manifest.rows]
                     res = f"ok {len(locs)} {len(set(locs))}"
                 else:
                     res = "ok -"
             elif op == "load":
                 sigs, bad = load_how(S, a[0])
+                bad = bad or recheck_history(S)
                 if bad:
                     res = bad
                 elif S.kind in ("zip", "sigfile", "sqldb") :
@@ -575,7 +926,12 @@ def main():
                 else:
                     res = "ok~ " + ";".join(show_sig(x) for x in sigs)
             elif op == "len":
-                res = f"ok {len(generic(S))}"
+                idx = generic(S)
+                n1 = len(idx)
+                with in_dir(S.cwd):
+                    _ = sum(1 for _ in idx.signatures()) if S.kind != "mf" else 0
+                res = f"ok {n1}" if len(idx) == n1 else "HIST:len-changes-after-iteration"
+                res = recheck_history(S) or res
             elif op == "kind":
                 res = do_kind(S, a[0])
             elif op == "conv":
